@@ -771,3 +771,69 @@ pub fn commit_eval<C: Suite>(comm: &[El<C>], x: Sc<C>) -> El<C> {
 pub fn culprits_of<C: Suite>(e: &frost::Error<C>) -> Vec<Id<C>> {
     e.culprits()
 }
+
+
+/// the same JSON document in another spelling: the first character of every string literal written as a \\uXXXX escape
+pub fn json_escape_variant(text: &str) -> String {
+    let mut out = String::with_capacity(text.len() + 16);
+    let mut in_str = false;
+    let mut first = false;
+    let mut esc = false;
+    for ch in text.chars() {
+        if in_str {
+            if first {
+                first = false;
+                if ch.is_ascii_alphanumeric() {
+                    out.push_str(&format!("\\u{:04x}", ch as u32));
+                    continue;
+                }
+            }
+            if esc {
+                esc = false;
+            } else if ch == '\\' {
+                esc = true;
+            } else if ch == '"' {
+                in_str = false;
+            }
+            out.push(ch);
+        } else {
+            if ch == '"' {
+                in_str = true;
+                first = true;
+            }
+            out.push(ch);
+        }
+    }
+    out
+}
+
+/// decode a JSON text through every route a caller may use - borrowed text, byte slice, `io::Read`, an already
+/// parsed `serde_json::Value`, and the same document with escaped string characters / pretty-printed. All routes
+/// must accept and agree; the error names the route.
+pub fn json_all_routes<T: serde::de::DeserializeOwned + PartialEq>(text: &str) -> Result<T, String> {
+    let base: T = serde_json::from_str(text).map_err(|e| format!("route from_str: {e}"))?;
+    let v: T = serde_json::from_slice(text.as_bytes()).map_err(|e| format!("route from_slice: {e}"))?;
+    if v != base {
+        return Err("route from_slice gives another value".into());
+    }
+    let v: T = serde_json::from_reader(std::io::Cursor::new(text.as_bytes())).map_err(|e| format!("route from_reader: {e}"))?;
+    if v != base {
+        return Err("route from_reader gives another value".into());
+    }
+    let doc: serde_json::Value = serde_json::from_str(text).map_err(|e| format!("route Value: {e}"))?;
+    let v: T = serde_json::from_value(doc.clone()).map_err(|e| format!("route from_value: {e}"))?;
+    if v != base {
+        return Err("route from_value gives another value".into());
+    }
+    let escaped = json_escape_variant(text);
+    let v: T = serde_json::from_str(&escaped).map_err(|e| format!("route from_str on the same document with \\u escapes: {e}"))?;
+    if v != base {
+        return Err("route escaped-text gives another value".into());
+    }
+    let pretty = serde_json::to_string_pretty(&doc).map_err(|e| format!("pretty: {e}"))?;
+    let v: T = serde_json::from_str(&pretty).map_err(|e| format!("route from_str on the pretty-printed document: {e}"))?;
+    if v != base {
+        return Err("route pretty-printed gives another value".into());
+    }
+    Ok(base)
+}
